@@ -35,15 +35,17 @@ impl Write for Scripted {
         let mut s = self.0.borrow_mut();
         s.call_writes += 1;
         // menu: 0 = accept all; then accept k < len for k in 0..=3; then the three error kinds
-        let mut menu: Vec<Result<usize, ErrorKind>> = vec![Ok(buf.len())];
+        let mut menu: Vec<Result<usize, Result<ErrorKind, i32>>> = vec![Ok(buf.len())];
         for k in 0..=3usize {
             if k < buf.len() {
                 menu.push(Ok(k));
             }
         }
         for k in ERR_KINDS {
-            menu.push(Err(k));
+            menu.push(Err(Ok(k)));
         }
+        // ... and one error that carries a raw OS code instead of a plain kind
+        menu.push(Err(Err(6)));
         let c = s.script.choose(menu.len());
         match menu[c] {
             Ok(n) => {
@@ -56,9 +58,13 @@ impl Write for Scripted {
                 s.accepted.extend_from_slice(&buf[..n]);
                 Ok(n)
             }
-            Err(k) => {
-                s.call_errors.push(k);
-                Err(io::Error::new(k, "injected"))
+            Err(e) => {
+                let err = match e {
+                    Ok(k) => io::Error::new(k, "injected"),
+                    Err(code) => io::Error::from_raw_os_error(code),
+                };
+                s.call_errors.push(err.kind());
+                Err(err)
             }
         }
     }
